@@ -10,6 +10,7 @@ from scipy.linalg import get_lapack_funcs
 from scipy.sparse import csr_array
 
 from symfc.utils.solver_funcs import get_batch_slice
+from symfc.utils._verif_hooks import verif_int
 
 try:
     from sparse_dot_mkl import dot_product_mkl
@@ -257,6 +258,7 @@ def _block_eigh_projector(p_block: np.ndarray, verbose: bool = False):
 
     p_size = p_block.shape[0]
     target_size = min(max(p_size // 10, 1000), 3000)
+    target_size = verif_int("SYMFC_VERIF_EIG_TARGET", target_size)
 
     col_id, col_id_cmplt = 0, 0
     for begin, end in zip(*get_batch_slice(p_size, target_size)):
@@ -314,6 +316,7 @@ def eigsh_projector_sumrule(
 
     Return dense matrix for eigenvectors of matrix p.
     """
+    size_threshold = verif_int("SYMFC_VERIF_EIG_THRESHOLD", size_threshold)
     if p.shape[0] > size_threshold:
         return eigsh_projector_sumrule_large(p, verbose=verbose)
     return eigsh_projector_sumrule_stable(p, verbose=verbose)
